@@ -46,6 +46,14 @@ IdValue(name, cur, H, log) ==
   ELSE LET h == HostResolve(H, name) IN
        R(IF h = None THEN U ELSE h[1], Append(log, [cb |-> "resolve", sym |-> name, answered |-> h # None]))
 
+RECURSIVE PathAccess(_, _, _)
+\* follow a path of keys / indexes through nested containers; a missing step ends the walk with unit
+PathAccess(cur, parts, i) ==
+  IF i > Len(parts) THEN cur
+  ELSE IF IsSkip(cur) THEN SKIP
+  ELSE IF cur.t \in {"list", "pair", "concat"} THEN (LET nx == AccessV(cur, parts[i]) IN IF nx.t = "unit" THEN U ELSE PathAccess(nx, parts, i + 1))
+  ELSE IF cur.t \in {"str", "bytes", "range", "slice", "symlist"} THEN SKIP
+  ELSE U
 RECURSIVE Eval(_, _, _, _, _), Items(_, _, _, _, _, _), ApplyV(_, _, _, _, _, _), ElseEval(_, _, _, _, _), ArmEval(_, _, _, _, _)
 
 \* items of a space list / comma list: the left spine of same-kind nodes flattens into one list
@@ -76,7 +84,8 @@ ApplyV(f, x, empty, H, log, fuel) ==
   ELSE IF f.t \in {"list", "pair", "str", "bytes"} /\ x.t = "float" THEN R(SKIP, log)      \* fractional index: not specified
   ELSE IF f.t \in {"range", "slice", "sym", "symlist", "concat", "str", "bytes"} THEN R(SKIP, log)
   ELSE IF f.t = "list" /\ x.t = "range" THEN R(IF IntRange(x) THEN [t |-> "slice", l |-> f, r |-> x] ELSE SKIP, log)     \* a list applied to a range is the slice
-  ELSE IF f.t = "list" /\ x.t = "symlist" THEN R(SKIP, log)
+  ELSE IF f.t = "list" /\ x.t = "symlist" THEN R(PathAccess(f, x.v, 1), log)        \* a list applied to a symbol list follows the path key by key
+  ELSE IF f.t \in {"concat", "symlist"} /\ x.t = "range" THEN R(IF IntRange(x) THEN [t |-> "slice", l |-> f, r |-> x] ELSE SKIP, log)
   ELSE R(U, log)
 
 Eval(t, cur, H, log, fuel) ==
